@@ -18,7 +18,7 @@ import random
 import sys
 import threading
 
-from . import canon
+from . import canon, simsync
 from .common import H, HarnessError, digest, geometric
 
 FULL_FORM_LIMIT = 300_000
@@ -68,6 +68,7 @@ class Scheduler:
         self.switches = 0
         self.max_steps = INF
         self.hung = False
+        self.blocked_waits = 0
         self.deadline_s = 300.0
         self.main_sem = threading.Semaphore(0)
         self.switch_hook = None
@@ -94,11 +95,12 @@ class Scheduler:
 
     # -- decisions --------------------------------------------------------
     def _runnable(self):
-        return [a for a in self.actors if not a.done]
+        return [a for a in self.actors if not a.done and a.blocked_on is None]
 
     def _decide(self, frm):
-        """Choose self.cur and self.budget (>=1).  frm: the actor at a yield
-        point (still runnable) or None (start / after an actor finished)."""
+        """Choose self.cur and self.budget (>=1) among the runnable actors
+        (not finished, not waiting for a simulated lock).  frm: the actor at a
+        yield point or None (start / after an actor finished)."""
         run = self._runnable()
         if not run:
             self.cur = None
@@ -111,7 +113,7 @@ class Scheduler:
                     idx, n = int(seg[0]), int(seg[1])
                 except Exception:
                     continue
-                if 0 <= idx < self.n and n > 0 and not self.actors[idx].done:
+                if 0 <= idx < self.n and n > 0 and self.actors[idx] in run:
                     self._set(self.actors[idx], n)
                     return
             self._set(run[0], INF)
@@ -141,7 +143,7 @@ class Scheduler:
                 self._set(rng.choice(others), b)
         else:  # rtc
             for idx in self.order:
-                if not self.actors[idx].done:
+                if self.actors[idx] in run:
                     self._set(self.actors[idx], INF)
                     return
 
@@ -174,10 +176,46 @@ class Scheduler:
             self.hung = True
             raise StepCap("step cap exceeded")
 
+    def yield_blocked(self, a, obj):
+        """`a` waits for the simulated lock / event `obj`: it is not runnable
+        until somebody releases `obj`; somebody else takes the next step (a
+        scheduling decision like any other).  Nobody runnable = deadlock."""
+        self.blocked_waits += 1
+        a.blocked_on = obj
+        self.budget = 0
+        self._decide(a)
+        if self.cur is None:
+            a.blocked_on = None
+            self.hung = True
+            raise StepCap("deadlock: every unfinished actor waits for a lock")
+        self.switches += 1
+        self.cur.sem.release()
+        a.sem.acquire()
+        if self.hung:
+            raise StepCap("step cap exceeded (unwinding)")
+        self.budget -= 1
+        self.total_steps += 1
+        a.steps += 1
+        self.segments[-1][1] += 1
+        if self.total_steps > self.max_steps:
+            self.hung = True
+            raise StepCap("step cap exceeded")
+
+    def unblock(self, obj):
+        for x in self.actors:
+            if x.blocked_on is obj:
+                x.blocked_on = None
+
     def finished(self, a):
         a.done = True
         self.budget = 0
         self._decide(None)
+        if self.cur is None and any(not x.done for x in self.actors):
+            # the rest waits for locks nobody will release: unwind them as hung
+            self.hung = True
+            for x in self.actors:
+                x.blocked_on = None
+            self._decide(None)
         if self.cur is None:
             self.main_sem.release()
         else:
@@ -228,6 +266,7 @@ class Actor:
         self.last_site = "start"
         self.preempted_inside = 0
         self.thread_ident = None
+        self.blocked_on = None
         self.vfile = None
         self.ntok = 0
         self.tokhash = 0
@@ -1159,12 +1198,16 @@ def execute(pyc, spec, keep_full=True):
     sys.setrecursionlimit(int(spec.get("recursion_limit", 1000)))
     world = World(pyc, spec)
     threads = _pool_threads(len(world.actors))
-    for t, a in zip(threads, world.actors):
-        t.job = (_actor_main, (world, a))
-        t.go.release()
-    world.sched.start()
-    for t in threads:
-        t.done.acquire()
+    simsync.CURRENT = world
+    try:
+        for t, a in zip(threads, world.actors):
+            t.job = (_actor_main, (world, a))
+            t.go.release()
+        world.sched.start()
+        for t in threads:
+            t.done.acquire()
+    finally:
+        simsync.CURRENT = None
     for a in world.actors:
         if a.harness_error:
             if a.harness_error.startswith("StepCap"):
@@ -1178,6 +1221,7 @@ def execute(pyc, spec, keep_full=True):
     out = {
         "cross_shared": cross,
         "hung": world.sched.hung,
+        "blocked_waits": world.sched.blocked_waits,
         "foreign_lexer_calls": world.foreign_lexer_calls,
         "preempted_inside": [a.preempted_inside for a in world.actors],
         "actors": [a.results for a in world.actors],
